@@ -36,6 +36,9 @@ type Store[H header.Header[H]] struct {
 	ds *keytransform.Datastore
 	// adaptive replacement cache of headers
 	cache *lru.TwoQueueCache[string, H]
+	// deletions counts committed deletions, so that a reader caching a header it has just loaded
+	// notices that the header may have been deleted and evicted in the meantime
+	deletions *atomic.Uint64
 	// metrics collection instance
 	metrics *metrics
 
@@ -113,6 +116,7 @@ func newStore[H header.Header[H]](ds datastore.Batching, opts ...Option) (*Store
 	return &Store[H]{
 		ds:          wrappedStore,
 		cache:       cache,
+		deletions:   index.deletions,
 		metrics:     metrics,
 		heightIndex: index,
 		heightSub:   newHeightSub(),
@@ -227,6 +231,7 @@ func (s *Store[H]) Get(ctx context.Context, hash header.Hash) (H, error) {
 		return h, nil
 	}
 
+	deletions := deletionsSeen(ctx, s.deletions)
 	b, err := s.get(ctx, hash)
 	if err != nil {
 		return zero, err
@@ -237,7 +242,13 @@ func (s *Store[H]) Get(ctx context.Context, hash header.Hash) (H, error) {
 		return zero, err
 	}
 
-	s.cache.Add(h.Hash().String(), h)
+	key := h.Hash().String()
+	s.cache.Add(key, h)
+	if s.deletions.Load() != deletions {
+		// a deletion has been committed since the header was loaded and may have evicted it
+		// from the cache already: do not let it live on there
+		s.cache.Remove(key)
+	}
 	return h, nil
 }
 
@@ -818,6 +829,8 @@ func (s *Store[H]) withReadTransaction(ctx context.Context) (context.Context, fu
 		return ctx, func() {}
 	}
 
+	// the transaction may be a snapshot: what is read through it is as old as this moment
+	ctx = context.WithValue(ctx, deletionsSeenKey{}, s.deletions.Load())
 	txn, err := tds.NewTransaction(ctx, true)
 	if err != nil {
 		log.Errorw("new transaction", "err", err)
@@ -827,6 +840,17 @@ func (s *Store[H]) withReadTransaction(ctx context.Context) (context.Context, fu
 	return contextds.WithRead(ctx, txn), func() {
 		txn.Discard(ctx)
 	}
+}
+
+type deletionsSeenKey struct{}
+
+// deletionsSeen reports the deletions counter as of the moment the data read with ctx is from:
+// before the read transaction attached to ctx was opened, or now.
+func deletionsSeen(ctx context.Context, deletions *atomic.Uint64) uint64 {
+	if seen, ok := ctx.Value(deletionsSeenKey{}).(uint64); ok {
+		return seen
+	}
+	return deletions.Load()
 }
 
 func writeHeaderHashTo[H header.Header[H]](
